@@ -624,3 +624,72 @@ def rule_scheduler_heap(ck, facts, R):
             if n not in HEAP_INSERT and n not in HEAP_REMOVE and n not in ("new", "default", "peek", "len", "is_empty", "with_capacity", "peek_mut", "iter", "capacity", "reserve"):
                 f, t = ops[side][n][0]
                 ck.bad(R, "scheduler-heap|unclassified|%s|%s" % (side, n), "BinaryHeap::%s is used by the %s scheduler and is not classified as insertion / removal / neutral" % (n, side), f.where(t))
+
+
+
+# --------------------------------------------------------------------------------------------------
+# unit-valued merges: the MIR generator puts `Value::None` into Phi / PhiSwitch inputs when a branch or arm has no
+# value (an `if` / `match` used for its effects).  The bytecode generator resolves operands by table lookup
+# (`find` / `find_keep` end in `expect("value .. not found")`), and `Value::None` is never in the table.
+def rule_unit_merge(ck, facts, R):
+    from .. import roles
+    from ..cfg import DefIndex, dominators
+    from ..rules.chainwalk import taint
+    ck.rule(R, "in the bytecode lowering of `if` and `match`, a Phi / PhiSwitch input is looked up in the register table only on a path that has established it is not `Value::None` (a dominating branch on the discriminant of a mir::Value): the MIR generator uses `Value::None` for branches and arms without a value")
+    bl = roles.bytecode_lowering(facts)
+    ck.require(R, bl is not None, "anchor|bytecode-lowering", "bytecode lowering not found")
+    if bl is None:
+        return
+    lang = facts.crate(roles.LANG)
+    # producer side: None values and merges exist
+    mg = [g for g in lang.fns if "::compiler::mirgen::" in g.path and g.kind != "promoted"]
+    n_none = sum(1 for g in mg for _, st in g.all_stmts() if st[KIND] == "a" and st[5][0] == "agg" and st[5][1][0] == "adt" and st[5][1][1].endswith("mir::Value") and st[5][1][3] == "None")
+    ck.floor(R, "mirgen_none_values", n_none, 5)
+    fam = facts.family(roles.LANG, bl.fn.root)
+    n = 0
+    for g in fam:
+        di = DefIndex(g)
+        sites = []
+        for b, t in g.calls():
+            c = callee(t) or ""
+            if not (c.endswith("ByteCodeGenerator::find") or c.endswith("ByteCodeGenerator::find_keep")) or len(t[5]) < 2:
+                continue
+            of = _origin_field(di, t[5][1])
+            is_phi = bool(of and ("Instruction::Phi::" in of))
+            is_elem = False
+            if g.kind == "closure" and not is_phi:
+                cur = t[5][1]
+                r = None
+                for _ in range(6):
+                    r = di.resolve(cur)
+                    if r[0] == "rv" and r[1][5][0] == "ref":
+                        cur = ["cp", [r[1][5][1][0], []]]
+                        continue
+                    if r[0] == "place":
+                        cur = ["cp", [r[1][0], []]]
+                        continue
+                    break
+                is_elem = g.d.get("argc", 0) == 2 and "Arc<mir::Value>" in g.local_ty(2) and r is not None and r[0] == "arg" and r[1] == 2
+            if is_phi or is_elem:
+                sites.append((b, t, of or "element of the PhiSwitch inputs"))
+        if not sites:
+            continue
+        dom = dominators(g)
+        # locals derived from a discriminant of a mir::Value
+        seeds = [st[4][0] for _, st in g.all_stmts() if st[KIND] == "a" and st[5][0] == "disc" and st[5][2].endswith("mir::Value")]
+        T = taint(g, seeds) if seeds else set()
+        for b, t, what in sites:
+            n += 1
+            guarded = False
+            for d in dom.get(b, ()):
+                if d == b:
+                    continue
+                td = g.term(d)
+                if td[KIND] == "switch" and td[4][0] in ("cp", "mv") and td[4][1][0] in T:
+                    guarded = True
+            key = "unit-merge|%s|%s" % (g.short.split("::")[-1] if g.kind != "closure" else "Switch-inputs", what.split("::")[-2] + "." + what.split("::")[-1] if "::" in what else "input")
+            if guarded:
+                ck.ok(R, key)
+            else:
+                ck.bad(R, key, "%s looks a merge input (%s) up in the register table without first excluding `Value::None`: an `if` / `match` whose branch or arm has no value (`if (c) { f() }`, `_ => { x = x + 1.0 }`) makes the bytecode generator panic (`value none not found`) while the WASM generator compiles it" % (g.short, what), g.where(t))
+    ck.floor(R, "merge_input_lookups", n, 3)
